@@ -582,4 +582,140 @@ mutual
     | _, _ => False
 end
 
+
+/-! ## 7. Stage 0 — small bridges -/
+
+theorem Item.allInRange_append : (a b : List Item) →
+    (Item.AllInRange (a ++ b) ↔ Item.AllInRange a ∧ Item.AllInRange b)
+  | [], b => by simp [Item.AllInRange]
+  | x :: a, b => by
+    simp only [List.cons_append, Item.AllInRange, Item.allInRange_append a b, and_assoc]
+
+theorem Item.allInRange_singleton (x : Item) : Item.AllInRange [x] ↔ x.InRange := by
+  simp [Item.AllInRange]
+
+/-- tag of the item a cursor is positioned on (0 at the end). -/
+def htag : List RawItem → Nat
+  | [] => 0
+  | r :: _ => r.tag
+
+/-- a validated cursor over raw items, nothing pending. -/
+abbrev Cur.of (l : List RawItem) : Cur := { items := l, tail := none }
+
+theorem Cur.tag_of (l : List RawItem) : (Cur.of l).tag = htag l := by
+  cases l <;> rfl
+
+theorem Item.withTag_self (it : Item) : it.withTag it.tag = it := by
+  cases it <;> rfl
+
+theorem Item.withTag_tag (it : Item) (t : Nat) : (it.withTag t).tag = t := by
+  cases it <;> rfl
+
+/-! ## 8. Stage 1 — scalar kinds -/
+
+theorem isU32_iff (x : Int) : isU32 x = true ↔ 0 ≤ x ∧ x < 4294967296 := by
+  simp [isU32]
+
+theorem ite_some_eq {α : Type} {c : Prop} [Decidable c] {a b : α}
+    (h : (if c then some a else none) = some b) : c ∧ a = b := by
+  split at h
+  · exact ⟨‹c›, Option.some.inj h⟩
+  · contradiction
+
+theorem pair_eq {α β : Type} {a a' : α} {b b' : β} (h : (a, b) = (a', b')) : a = a' ∧ b = b' := by
+  cases h; exact ⟨rfl, rfl⟩
+
+theorem scalar_rt (S : Schema) (n : Nat) (k : Kind) (hk : k.scalar = true) (tag : Nat) (v v' : Val)
+    (ver ver' : Option Ver) (h : normK S (n + 1) k tag v ver = some (v', ver')) :
+    ver' = ver ∧ ∃ it, encK S (n + 1) k tag v ver = .ok ([it], ver) ∧ it.tag = tag
+      ∧ encK S (n + 1) k tag v' ver = .ok ([it], ver)
+      ∧ normK S (n + 1) k tag v' ver = some (v', ver)
+      ∧ (it.InRange → ∀ (fd : Nat) (rs : List RawItem) (w : Option Ver),
+          decK S (fd + 1) k tag { items := it.raw :: rs, tail := none } w
+            = .ok (v', { items := rs, tail := none }, w)) := by
+  cases k <;> simp only [Kind.scalar] at hk <;> try contradiction
+  all_goals (cases v <;> simp only [normK] at h <;> try contradiction)
+  case i32.int x =>
+    obtain ⟨hx, e⟩ := ite_some_eq h; obtain ⟨rfl, rfl⟩ := pair_eq e
+    refine ⟨rfl, .int tag x, by simp only [encK], rfl, by simp only [encK], by simp only [normK, if_pos hx], ?_⟩
+    intro hr fd rs w
+    rw [Item.InRange] at hr
+    simp only [decK, Cur.integer_raw tag x rs hr.2.2, Res.ok_bind, Res.pure_eq]
+  case mask.int t x =>
+    obtain ⟨hx, e⟩ := ite_some_eq h; obtain ⟨rfl, rfl⟩ := pair_eq e
+    refine ⟨rfl, .int tag x, by simp only [encK], rfl, by simp only [encK], by simp only [normK, if_pos hx], ?_⟩
+    intro hr fd rs w
+    rw [Item.InRange] at hr
+    simp only [decK, Cur.integer_raw tag x rs hr.2.2, Res.ok_bind, Res.pure_eq]
+  case u8.int x =>
+    obtain ⟨hx, e⟩ := ite_some_eq h; obtain ⟨rfl, rfl⟩ := pair_eq e
+    refine ⟨rfl, .int tag x, by simp only [encK], rfl, by simp only [encK], by simp only [normK, if_pos hx], ?_⟩
+    intro hr fd rs w
+    rw [Item.InRange] at hr
+    simp only [decK, Cur.integer_raw tag x rs hr.2.2, Res.ok_bind, Res.pure_eq, if_neg (by omega : ¬ x < 0)]
+  case u16.int x =>
+    obtain ⟨hx, e⟩ := ite_some_eq h; obtain ⟨rfl, rfl⟩ := pair_eq e
+    refine ⟨rfl, .int tag x, by simp only [encK], rfl, by simp only [encK], by simp only [normK, if_pos hx], ?_⟩
+    intro hr fd rs w
+    rw [Item.InRange] at hr
+    simp only [decK, Cur.integer_raw tag x rs hr.2.2, Res.ok_bind, Res.pure_eq, if_neg (by omega : ¬ x < 0)]
+  case u32.int x =>
+    obtain ⟨hx, e⟩ := ite_some_eq h; obtain ⟨rfl, rfl⟩ := pair_eq e
+    have hx' := (isU32_iff x).1 hx
+    refine ⟨rfl, .long tag x, by simp only [encK], rfl, by simp only [encK], by simp only [normK, if_pos hx], ?_⟩
+    intro hr fd rs w
+    rw [Item.InRange] at hr
+    simp only [decK, Cur.longInteger_raw tag x rs hr.2.2, Res.ok_bind, Res.pure_eq, if_neg (by omega : ¬ x < 0)]
+  case i64.int x =>
+    obtain ⟨hx, e⟩ := ite_some_eq h; obtain ⟨rfl, rfl⟩ := pair_eq e
+    refine ⟨rfl, .long tag x, by simp only [encK], rfl, by simp only [encK], by simp only [normK, if_pos hx], ?_⟩
+    intro hr fd rs w
+    rw [Item.InRange] at hr
+    simp only [decK, Cur.longInteger_raw tag x rs hr.2.2, Res.ok_bind, Res.pure_eq]
+  case date.int x =>
+    obtain ⟨hx, e⟩ := ite_some_eq h; obtain ⟨rfl, rfl⟩ := pair_eq e
+    refine ⟨rfl, .date tag x, by simp only [encK], rfl, by simp only [encK], by simp only [normK, if_pos hx], ?_⟩
+    intro hr fd rs w
+    rw [Item.InRange] at hr
+    simp only [decK, Cur.dateTime_raw tag x rs hr.2.2, Res.ok_bind, Res.pure_eq]
+  case interval.int x =>
+    obtain ⟨hx, e⟩ := ite_some_eq h; obtain ⟨rfl, rfl⟩ := pair_eq e
+    have hx' := (isU32_iff x).1 hx
+    refine ⟨rfl, .interval tag x.toNat, by simp only [encK, if_neg (by omega : ¬ x < 0)], rfl,
+      by simp only [encK, if_neg (by omega : ¬ x < 0)], by simp only [normK, if_pos hx], ?_⟩
+    intro hr fd rs w
+    rw [Item.InRange] at hr
+    simp only [decK, Cur.interval_raw tag x.toNat rs hr.2.2, Res.ok_bind, Res.pure_eq,
+      Int.toNat_of_nonneg hx'.1]
+  case enum.int t x =>
+    obtain ⟨hx, e⟩ := ite_some_eq h; obtain ⟨rfl, rfl⟩ := pair_eq e
+    have hx' := (isU32_iff x).1 hx
+    refine ⟨rfl, .enum tag x.toNat, by simp only [encK], rfl,
+      by simp only [encK], by simp only [normK, if_pos hx], ?_⟩
+    intro hr fd rs w
+    rw [Item.InRange] at hr
+    simp only [decK, Cur.enum_raw tag x.toNat rs hr.2.2, Res.ok_bind, Res.pure_eq,
+      Int.toNat_of_nonneg hx'.1]
+  case bool.bool b =>
+    obtain ⟨rfl, rfl⟩ := pair_eq (Option.some.inj h)
+    refine ⟨rfl, .bool tag b, by simp only [encK], rfl, by simp only [encK], by simp only [normK], ?_⟩
+    intro hr fd rs w
+    simp only [decK, Cur.bool_raw tag b rs, Res.ok_bind, Res.pure_eq]
+  case text.text s =>
+    obtain ⟨rfl, rfl⟩ := pair_eq (Option.some.inj h)
+    refine ⟨rfl, .text tag s, by simp only [encK], rfl, by simp only [encK], by simp only [normK], ?_⟩
+    intro hr fd rs w
+    simp only [decK, Cur.textString_raw tag s rs, Res.ok_bind, Res.pure_eq]
+  case bytes.bytes b =>
+    obtain ⟨rfl, rfl⟩ := pair_eq (Option.some.inj h)
+    refine ⟨rfl, .bytes tag (b.getD []), by simp only [encK], rfl, by simp only [encK, Option.getD_some],
+      by simp only [normK, Option.getD_some], ?_⟩
+    intro hr fd rs w
+    simp only [decK, Cur.byteString_raw tag _ rs, Res.ok_bind, Res.pure_eq]
+  case big.big x =>
+    obtain ⟨rfl, rfl⟩ := pair_eq (Option.some.inj h)
+    refine ⟨rfl, .big tag x, by simp only [encK], rfl, by simp only [encK], by simp only [normK], ?_⟩
+    intro hr fd rs w
+    simp only [decK, Cur.bigInteger_raw tag x rs, Res.ok_bind, Res.pure_eq]
+
 end Kmip
